@@ -30,7 +30,8 @@ CLAIM = dict(
          "base factor of a derived unit is its own factor times the conversion factor of its defining unit, "
          "transitively; posTbl_of_rows. The same definitions at Float agree bit-for-bit with the real interpreter "
          "(source text -> tokenizer -> parser -> prefix resolution -> type checker -> compiler -> VM) on random "
-         "type-directed expression trees over all prelude units, aliases and accepted prefixes.",
+         "type-directed expression trees over all prelude units, aliases and accepted prefixes."
+         " The harness also evaluates every tree as a statement and compares the displayed (automatically simplified) result with the same dimensional arithmetic, and generates sums of equal powers of differently prefixed units and products / quotients whose dimension has a named unit.",
     design_ref="DESIGN.md section 5 C03",
     note="Exact-arithmetic theorems; 'up to floating-point rounding' is the gap between the ℝ and the Float "
          "instantiation of one definition, bounded only empirically by the oracle's error estimate.",
